@@ -1122,6 +1122,48 @@ def gen_comb_skel():
 
 KERNELS.append((gen_comb_skel, "CombSkel.v"))
 
+import map2coq      # noqa: E402
+
+
+def gen_map_skel():
+    """the methods of common._Future / MapFuture / FlatMapFuture (IR of Model/MapIR.v), see tools/map2coq.py"""
+    try:
+        map2coq.generate()
+    except map2coq.Unsupported as e:
+        raise Unsupported(str(e))
+
+
+KERNELS.append((gen_map_skel, "MapSkel.v"))
+
+
+import timeout2coq      # noqa: E402
+
+
+def gen_timeout_skel():
+    """the concurrent methods of TimeoutExecutor (IR of Model/TimeoutIR.v), see tools/timeout2coq.py"""
+    try:
+        timeout2coq.generate()
+    except timeout2coq.Unsupported as e:
+        raise Unsupported(str(e))
+
+
+KERNELS.append((gen_timeout_skel, "TimeoutSkel.v"))
+
+
+import retry2coq      # noqa: E402
+
+
+def gen_retry_skel():
+    """the method bodies of RetryExecutor / RetryFuture (IR of Model/RetryIR.v), see tools/retry2coq.py"""
+    try:
+        retry2coq.generate()
+    except retry2coq.Unsupported as e:
+        raise Unsupported(str(e))
+
+
+KERNELS.append((gen_retry_skel, "RetrySkel.v"))
+
+
 
 
 
